@@ -73,6 +73,7 @@ class State:
         self.mut = 0           # mutation counter (heap stores)
         self.ghost = {}        # ghost values of this activation
         self.trace = []        # branch trace for obligation naming
+        self.writes = []       # log of heap writes (oid/lid, field)
 
     def assume(self, f):
         if f is True:
@@ -90,6 +91,7 @@ class State:
         n.pc = list(self.pc)
         n.mut = self.mut
         n.trace = list(self.trace)
+        n.writes = list(self.writes)
         return n
 
 
@@ -188,6 +190,10 @@ class Env:
         self._extra = extra or {}
 
     def __getitem__(self, k):
+        if k == '$ex':
+            return self._st.ex
+        if k == '$st':
+            return self._st
         if k in self._extra:
             return self._extra[k]
         if k in self._st.env:
@@ -401,6 +407,7 @@ class Exec:
                     # in-place extension keeps identity
                     self.list_extend(old, v, st2, s.lineno)
                     st2.mut += 1
+                    st2.writes.append((old.lid, '$list'))
                     yield st2, None
                     continue
                 new = self.binop(s.op, old, v, st2, s.lineno)
@@ -473,6 +480,9 @@ class Exec:
             self.check_invs(spec, st0, tag + ':inv-init', s.lineno)
             # 2. havoc
             targets = [n for n in _assigned_names(s) if n not in spec.keep]
+            mark = sym.uid()
+            nwr = len(st0.writes)
+            hav = self.havoc_set(st0, list(targets) + list(spec.modifies))
             h = st0.clone()
             h.trace.append(tag)
             if is_for:
@@ -528,6 +538,12 @@ class Exec:
                         yield b2, sig
                         continue
                     # normal end of body or continue: back edge
+                    for w in b2.writes[nwr:]:
+                        if w[0] < mark and w not in hav:
+                            raise EngineError(
+                                'loop %s of %s writes %r which is not in '
+                                'its havoc set (declare it in modifies)' % (
+                                    tag, fi.qual, w))
                     if is_for:
                         it.rebind(b2).advance(b2)
                     if spec.ghost_update:
@@ -549,6 +565,8 @@ class Exec:
             self.prove(st, '%s:%s@%s' % (label, name, _tr(st)), fn(E), line)
         for name, sp in spec.shapes.items():
             v = self.lookup_path(st, name)
+            if callable(sp) and not hasattr(sp, 'check'):
+                sp = sp(E)
             sp.check(self, st, v, '%s:shape:%s@%s' % (label, name, _tr(st)),
                      line)
 
@@ -577,10 +595,35 @@ class Exec:
             v = v.fields[p]
         v.fields[parts[-1]] = val
 
+    def havoc_set(self, st, paths):
+        out = set()
+        for p in paths:
+            parts = p.split('.')
+            try:
+                v = st.env[parts[0]]
+                for q in parts[1:-1]:
+                    v = v.fields[q]
+                if len(parts) > 1 and isinstance(v, Obj):
+                    out.add((v.oid, parts[-1]))
+                    fv = v.fields.get(parts[-1])
+                    if isinstance(fv, TokList):
+                        out.add((fv.lid, '$list'))
+                elif len(parts) == 1 and isinstance(v, TokList):
+                    out.add((v.lid, '$list'))
+            except (KeyError, AttributeError):
+                pass
+        return out
+
     def havoc(self, st, targets, spec, line):
-        for name in list(targets) + list(spec.modifies):
+        names = list(targets) + [m for m in spec.modifies
+                                 if m not in targets]
+        names += [m for m in spec.shapes if m not in names]
+        for name in names:
             if name in spec.shapes:
-                self.store_path(st, name, spec.shapes[name].make(self, st))
+                sp = spec.shapes[name]
+                if callable(sp) and not hasattr(sp, 'check'):
+                    sp = sp(Env(st))
+                self.store_path(st, name, sp.make(self, st))
                 continue
             try:
                 old = self.lookup_path(st, name)
@@ -683,11 +726,13 @@ class Exec:
             hook(self, st, o, attr, v, line)
         o.fields[attr] = v
         st.mut += 1
+        st.writes.append((o.oid, attr))
 
     def store_item(self, o, i, v, st, line):
         if isinstance(o, TokList):
             self.list_set(o, i, v, st, line)
             st.mut += 1
+            st.writes.append((o.lid, '$list'))
             return
         if isinstance(o, PyDict):
             if isinstance(i, str) or i is None:
@@ -1782,22 +1827,45 @@ def merge_values(ex, cands, st):
     return acc
 
 
+def _path_of(node):
+    """dotted access path Name(.attr)* or None"""
+    parts = []
+    while isinstance(node, ast.Attribute):
+        parts.append(node.attr)
+        node = node.value
+    if isinstance(node, ast.Name):
+        parts.append(node.id)
+        return '.'.join(reversed(parts))
+    return None
+
+
+_MUTATORS = ('append', 'extend', 'insert', 'pop', 'sort', 'remove', 'clear')
+
+
 def _assigned_names(loop):
+    """names and dotted paths (x.f) assigned or mutated in place in a loop"""
     out = []
+
+    def add(p):
+        if p is not None and p not in out:
+            out.append(p)
 
     def tgt(t):
         if isinstance(t, ast.Name):
-            if t.id not in out:
-                out.append(t.id)
+            add(t.id)
         elif isinstance(t, (ast.Tuple, ast.List)):
             for e in t.elts:
                 tgt(e)
+        elif isinstance(t, ast.Attribute):
+            add(_path_of(t))
+        elif isinstance(t, ast.Subscript):
+            add(_path_of(t.value))
 
     def walk(n):
         for c in ast.iter_child_nodes(n):
             if isinstance(c, (ast.FunctionDef, ast.Lambda)):
                 if isinstance(c, ast.FunctionDef):
-                    tgt(ast.Name(id=c.name))
+                    add(c.name)
                 continue
             if isinstance(c, ast.Assign):
                 for t in c.targets:
@@ -1812,6 +1880,10 @@ def _assigned_names(loop):
                 for it in c.items:
                     if it.optional_vars is not None:
                         tgt(it.optional_vars)
+            elif isinstance(c, ast.Call) and isinstance(c.func,
+                                                        ast.Attribute) \
+                    and c.func.attr in _MUTATORS:
+                add(_path_of(c.func.value))
             walk(c)
     if isinstance(loop, ast.For):
         tgt(loop.target)
